@@ -163,7 +163,8 @@ def model_bin(cfg):
     return os.path.join(LEAN, ".lake", "build", "bin", cfg["lean_exe"])
 
 
-def run_impl(cfg, ops, out, timeout=3000):
+def run_impl(cfg, ops, out, timeout=None):
+    timeout = timeout or cfg.get("run_timeout_s", 900)
     rc, o = sh([harness_bin(cfg), "run", ops, out], timeout=timeout)
     return rc, o
 
